@@ -445,6 +445,89 @@ def oracle_gram(c, o):
 
 
 
+# ---- sub-expressions are values: building a larger expression from an existing one must not change the existing one ----------------------
+_REUSE = ['sum_plus_op', 'sum_plus_sum', 'op_plus_sum', 'comp_at_op', 'scaled_times', 'sum_plus_tensor', 'matrix_plus', 'sum_in_matrix', 'sum_H', 'sum_gram']
+
+
+def gen_reuse(rng, tier):
+    out = []
+    for i in range(len(_REUSE) * (1 if tier == 'quick' else 12)):
+        n = rng.randint(1, 3)
+        out.append({'how': _REUSE[i % len(_REUSE)], 'n': n, 'mats': [opzoo.rand_gauss(rng, n * n, -3, 3) for _ in range(4)],
+                    's': opzoo.rand_gauss(rng, 1, -3, 3)[0], 'seed': rng.randrange(10 ** 6)})
+    return out
+
+
+def impl_reuse(c):
+    import mrpro.operators as ops
+    n = c['n']
+    Ms = [opzoo.to_c(M, [n, n]) for M in c['mats']]
+    A, B, C, D = (ops.EinsumOp(M.clone(), '... i j, ... j -> ... i') for M in Ms)
+    NA, NB, NC, ND = (M.numpy() for M in Ms)
+    s = complex(*c['s']) or 1j
+    how = c['how']
+    I2 = np.eye(2)
+
+    def dense(op, k=n):
+        F, G, _ = opzoo.dense(op, [k], torch.complex128)
+        return F, G
+    if how in ('matrix_plus', 'sum_in_matrix'):
+        S = A + B
+        NS = NA + NB
+        before = dense(S)
+        if how == 'matrix_plus':
+            M1 = ops.LinearOperatorMatrix([[S, C]])
+            M2 = ops.LinearOperatorMatrix([[D, A]])
+            T = M1 + M2
+        else:
+            T = ops.LinearOperatorMatrix([[S + C, D]])
+        x = torch.ones(n, dtype=torch.complex128)
+        T(x, x)
+        after = dense(S)
+        want_T = None
+    else:
+        S, NS = {'sum_plus_op': (A + B, NA + NB), 'sum_plus_sum': (A + B, NA + NB), 'op_plus_sum': (A + B, NA + NB), 'comp_at_op': (A @ B, NA @ NB),
+                 'scaled_times': (s * A, s * NA), 'sum_plus_tensor': (A + B, NA + NB), 'sum_H': (A + B, NA + NB), 'sum_gram': (A + B, NA + NB)}[how]
+        before = dense(S)
+        if how == 'sum_plus_op':
+            T, want_T = S + C, NS + NC
+        elif how == 'sum_plus_sum':
+            T, want_T = S + (C + D), NS + NC + ND
+        elif how == 'op_plus_sum':
+            T, want_T = C + S, NS + NC
+        elif how == 'comp_at_op':
+            T, want_T = S @ C, NS @ NC
+        elif how == 'scaled_times':
+            T, want_T = S * s, s * NA * s
+        elif how == 'sum_plus_tensor':
+            t = torch.full((n,), s, dtype=torch.complex128)
+            T, want_T = S + t, None
+        elif how == 'sum_H':
+            T, want_T = S.H + C, NS.conj().T + NC
+        else:
+            T, want_T = S.gram + C, NS.conj().T @ NS + NC
+        Ft = dense(T)[0] if want_T is not None else None
+        after = dense(S)
+    res = {'S_fwd_before': float(np.abs(before[0] - NS).max()), 'S_fwd_after': float(np.abs(after[0] - NS).max()),
+           'S_adj_after': float(np.abs(after[1] - NS.conj().T).max())}
+    if want_T is not None:
+        res['T_dev'] = float(np.abs(Ft - want_T).max())
+    return res
+
+
+def oracle_reuse(c, o):
+    if isinstance(o, dict) and 'raises' in o:
+        return f'building / evaluating the expressions raised {o["raises"]}: {o.get("msg")}'
+    if o['S_fwd_before'] > 1e-12:
+        return f'S ({c["how"]}) does not evaluate to its matrix expression (deviation {o["S_fwd_before"]:.3g})'
+    if o['S_fwd_after'] > 1e-12 or o['S_adj_after'] > 1e-12:
+        return (f'after building T from the existing expression S ({c["how"]}) S itself evaluates differently: deviation from its matrix '
+                f'{o["S_fwd_after"]:.3g} (forward), {o["S_adj_after"]:.3g} (adjoint)')
+    if o.get('T_dev', 0) > 1e-9:
+        return f'T built from S ({c["how"]}) deviates from the matrix expression by {o["T_dev"]:.3g}'
+    return None
+
+
 def translate(ctx):
     """Regenerate Gen/linop_gen.v from LinearOperator.py (adjoint methods and gram rules of the combinator classes) and re-check
     the obligations that tie them to Model/OpAlg.v and Model/Algebra.v."""
@@ -471,4 +554,6 @@ FAMILIES = [
            descr=descr_tree, shard=50, theorem='C04_sound, C04_gram'),
     Family('operator_matrix', gen_matrix, impl_matrix, None, '', None, oracle_matrix, descr=lambda c: {'op': c['op']}, theorem='C04_stacking'),
     Family('special_gram', gen_gram, impl_gram, None, '', None, oracle_gram, descr=lambda c: {'cls': c['cls']}, theorem='C04_cartesian_gram'),
+    Family('reuse_history', gen_reuse, impl_reuse, None, '', None, oracle_reuse, descr=lambda c: {'how': c['how']},
+           theorem='C04_tree_semantics (expressions denote matrices: a sub-expression keeps its value whatever is built from it)'),
 ]
